@@ -15,6 +15,7 @@ import json
 import os
 import re
 import shutil
+import time
 from concurrent.futures import ThreadPoolExecutor
 
 import vlib
@@ -65,6 +66,11 @@ def signature(prop, cfg, ev, expected_text, al):
     return "%s/%s/%s/%s/%s->%s" % (prop, cfg_class(cfg), ev["op"], input_class(ev, al), "|".join(exp), got)
 
 
+# Short TLC runs (trace validation; everything in the quick tier) are dominated by JVM start-up and JIT
+# compilation: C1 only and two GC threads cut their CPU time to a third when 14 of them run side by side.
+JVM_SHORT = "-XX:TieredStopAtLevel=1 -XX:ParallelGCThreads=2"
+
+
 def trace_overrides(al):
     return {"NK": al["nk"], "NV": al["nv"], "BigKeys": tla_set(al["bigk"]), "BigVals": tla_set(al["bigv"])}
 
@@ -73,7 +79,8 @@ def validate(ctx, cfg, tracefile, al, seed):
     """Validate one trace file with TLC; classify every VIOL. Returns the discrepancies [(sig, what, replay)]
     (reported by the caller in a fixed order, so that the saved replay of a signature does not depend on which
     configuration's thread finished first)."""
-    r = ctx.tlc_trace("Trace_SortedKV", "Trace_SortedKV.cfg", tracefile, overrides=trace_overrides(al))
+    r = ctx.tlc_trace("Trace_SortedKV", "Trace_SortedKV.cfg", tracefile, overrides=trace_overrides(al),
+                      env={"JAVA_TOOL_OPTIONS": JVM_SHORT})
     if not r["accepted"]:
         raise vlib.MachineryError("trace %s not fully consumed (cfg %s): %s" % (tracefile, cfg, r["out"][-1500:]))
     found = []
@@ -91,7 +98,9 @@ def validate(ctx, cfg, tracefile, al, seed):
         shown = {k: v for k, v in ev.items() if k not in ("seq", "ev")}
         what = "history %s/%s, call %d: %s ; the byte-ordered map answers %s" % (
             reset.get("leg"), reset.get("h"), len(ops), json.dumps(shown)[:300], text[:240])
-        replay = {"property": ctx.prop, "cfg": cfg, "seed": seed, "leg": reset.get("leg"), "signature": sig,
+        # exhaustive legs do not depend on the seed: their saved replay is the same file for every seed
+        replay = {"property": ctx.prop, "cfg": cfg, "seed": seed if reset.get("leg") in ("sim", "rnd") else None,
+                  "leg": reset.get("leg"), "signature": sig,
                   "ops": ops, "event": shown}
         found.append((sig, what[:700], replay))
     return found
@@ -104,7 +113,6 @@ def drive(ctx, drv, cfg, histfile, al, seed, scratch, random=0, rlen=0, tag="g")
     skip = 0
     tot_h = tot_e = hangs = unexamined = 0
     found = []
-    import time
     t0 = time.time()
     t_drv = 0.0
     for attempt in range(6):
@@ -115,7 +123,7 @@ def drive(ctx, drv, cfg, histfile, al, seed, scratch, random=0, rlen=0, tag="g")
         if random:
             argv += ["-random", str(random), "-rlen", str(rlen)]
         t1 = time.time()
-        rc, so, se = ctx.run(argv, timeout=900, ok_codes=None)
+        rc, so, se = ctx.run(argv, timeout=900, ok_codes=None, env={"GOGC": "400"})   # open/close of leveldb allocates MiBs
         t_drv += time.time() - t1
         if rc == 0:
             m = re.search(r"histories=(\d+) events=(\d+) hangs=(\d+) unexamined=(\d+)", so)
@@ -210,6 +218,8 @@ def negative_samples(ctx, drv, al, scratch):
 
 def run(ctx, replay):
     drv = ctx.build("c10")
+    if ctx.quick():
+        os.environ["JAVA_TOOL_OPTIONS"] = JVM_SHORT
     rc, so, se = ctx.run([drv, "-alphabet"], timeout=60)
     al = json.loads(so)
     ctx.specs()
@@ -221,7 +231,7 @@ def run(ctx, replay):
             rp = json.load(open(replay))
             hf = ctx.path("replay.jsonl")
             vlib.write_jsonl(hf, [{"leg": rp.get("leg", "replay"), "h": 0, "observe": False, "ops": rp["ops"]}])
-            h, e, hg, un, found = drive(ctx, drv, rp["cfg"], hf, al, rp.get("seed", ctx.seed), scratch, tag="replay")
+            h, e, hg, un, found = drive(ctx, drv, rp["cfg"], hf, al, rp.get("seed") or ctx.seed, scratch, tag="replay")
             report(ctx, found)
             ctx.cov["traces_validated_against_impl"] += h
             ctx.cov["evaluations"] += e
